@@ -94,6 +94,19 @@ CFG_AUTO = CFG.copy(p_auto=2, abs_max=8, worker_abs=False, nested=False, servabl
 
 
 @st.composite
+def _case_dense(draw, cfg):
+    """Several equally skilled facilities per workplace and per-task facility rules: ties everywhere, so that
+    whatever a run leaves behind in the order of a list shows in the next run."""
+    case = draw(_case(cfg))
+    spec = draw(gen.dense_pairs_spec(cfg, max_workers=3))
+    case["spec"] = spec
+    n, nc = len(spec["tasks"]), len(spec["comps"])
+    case["th"] = [list(range(n)), list(reversed(range(n)))]
+    case["ch"] = [list(range(nc)), list(reversed(range(nc)))]
+    return case
+
+
+@st.composite
 def _case_auto(draw, cfg):
     case = draw(_case(cfg))
     o = case["spec"]["opts"]
@@ -106,9 +119,9 @@ def _case_auto(draw, cfg):
 
 def strategy(tier):
     if tier == "quick":
-        return st.one_of(_case(CFG), _case(CFG), _case(CFG_N), _case(CFG_R6), _case_auto(CFG_AUTO))
+        return st.one_of(_case(CFG), _case(CFG), _case(CFG_N), _case(CFG_R6), _case_auto(CFG_AUTO), _case_dense(CFG.copy(min_wps=1, min_comps=1, max_facs_per_wp=3)))
     big = dict(max_tasks=10, max_workers=7)
-    return st.one_of(_case(CFG.copy(**big)), _case(CFG.copy(**big)), _case(CFG_N.copy(**big)), _case(CFG_R6.copy(**big)), _case_auto(CFG_AUTO.copy(max_tasks=9)))
+    return st.one_of(_case(CFG.copy(**big)), _case(CFG.copy(**big)), _case(CFG_N.copy(**big)), _case(CFG_R6.copy(**big)), _case_auto(CFG_AUTO.copy(max_tasks=9)), _case_dense(CFG.copy(min_wps=1, min_comps=1, max_facs_per_wp=3, max_tasks=9)))
 
 
 def budget(tier):
